@@ -748,7 +748,7 @@ def run(ctx):
         metas.append((p, sx, sy, b, dobs, sobs))
         ctx.count(1, key=("slice", hashlib.sha1(repr((jsonable_params(p), sx, sy)).encode() + b).hexdigest()[:16]) if dobs[0] == 0 and dobs[3] else None,
                   bucket="slice:" + {0: "ok", 1: "eof", 3: "bad-y-length", 9: "other"}[dobs[0]])
-    bad = ctx.coq_check_cases("slices", ["Base.PyZ", "Gen.StateRec", "Model.Slices", "Corr.C08"], "chk_slice_case", cases, shard=ctx.pick(45, 60))
+    bad = ctx.coq_check_cases("slices", ["Base.PyZ", "Gen.StateRec", "Model.Slices", "Corr.C08"], "chk_slice_case", cases, ty="slice_case", shard=ctx.pick(45, 60))
     for i in (bad or []):
         p, sx, sy, b, dobs, sobs = metas[i]
         save_corpus(ctx, p, sx, sy, b)
@@ -764,7 +764,7 @@ def run(ctx):
         I.tds.dc_prediction(out)
         dc_cases.append("(%s, %s)" % (clist(a, clist), clist(out, clist)))
         ctx.count(1, bucket="dc_prediction")
-    bad = ctx.coq_check_cases("dcpred", ["Model.Slices", "Corr.C08"], "chk_dc_case", dc_cases, shard=200)
+    bad = ctx.coq_check_cases("dcpred", ["Model.Slices", "Corr.C08"], "chk_dc_case", dc_cases, ty="list (list Z) * list (list Z)", shard=200)
     if bad:
         ctx.obligation("corr:dc_prediction model vs implementation", False, "corr-shard", "cases %r" % bad[:5])
     ctx.trusted.append("slice geometry, intlog2, inverse_quant, mean come from coq/Gen (regenerated from /repo on this run)")
